@@ -32,6 +32,10 @@ DATASETS = [
     ("single-element", [[{7}], [{7}]]),
     ("cycle", [[{1}, {2}, {3}], [{2}, {3}, {1}], [{3}, {1}, {2}]]),
     ("two-elements-opposed", [[{"x"}, {"y"}], [{"y"}, {"x"}]]),
+    # two cyclic components one before the other: ParCons hands two sub-problems to its sub-solvers
+    ("two-cyclic-components", [[{1}, {2}, {3}, {4}, {5}, {6}], [{2}, {3}, {1}, {5}, {6}, {4}], [{3}, {1}, {2}, {6}, {4}, {5}]]),
+    # an incomplete dataset in which one ranking covers the whole universe and another has a tie before its last bucket
+    ("incomplete-with-full-ranking", [[{1, 2}, {3}, {4}], [{5}, {1}, {2}, {3}, {4}], [{1, 2}, {3}, {4}]]),
 ]
 SCHEMES = [("unifying", UNIFYING), ("induced", INDUCED), ("pseudodistance", PSEUDO), ("generic", GENERIC)]
 
@@ -138,7 +142,16 @@ def run(ctx) -> Result:
     res.rule("W4", "several rankings only when allowed by return_at_most_one_ranking", 3)
     from . import C04, C10, C11
     C04.check_w1(res, proj, "W1")
-    jobs = [(proj.overlay, label, raws, ctx.thorough) for label, raws in DATASETS]
+    check_wellformed(res, proj, "W2", ctx.thorough)
+    res.explored_threshold = 5         # datasets of 1 to 6 elements are evaluated end to end
+    _rest(res, ctx)
+    return res
+
+
+def check_wellformed(res: Result, proj: Project, rule: str, thorough: bool, only=None):
+    """Every configuration x dataset x scheme: the call returns (no exception where the scheme is accepted) a well-formed
+    consensus over exactly the universe. Shared with C14 (a scheme declared relevant must be computable)."""
+    jobs = [(proj.overlay, label, raws, thorough) for label, raws in DATASETS if only is None or label in only]
     agg: Dict[Tuple[str, str], List] = {}
     n_eval = 0
     with ProcessPoolExecutor(max_workers=min(len(jobs), os.cpu_count() or 1)) as ex:
@@ -150,12 +163,16 @@ def run(ctx) -> Result:
                 else:
                     agg[key].append(problem)
     for (clabel, dlabel), probs in sorted(agg.items()):
-        res.check(not probs, "W2", f"{clabel}:{dlabel}", "corankco/algorithms",
+        res.check(not probs, rule, f"{clabel}:{dlabel}", "corankco/algorithms",
                   ok_detail="well-formed for every scheme and both values of return_at_most_one_ranking",
                   bad_detail=(f"dataset {dict(DATASETS)[dlabel]}: {probs[0]}" +
                               (f" [+{len(probs) - 1} more]" if len(probs) > 1 else "")) if probs else "")
     res.extra["end_to_end_evaluations"] = n_eval
-    res.explored_threshold = 5         # datasets of 1 to 6 elements are evaluated end to end
+
+
+def _rest(res: Result, ctx):
+    proj = ctx.proj
+    from . import C04, C10, C11
     # W6: the same algorithm object reused
     res.rule("W6", "an algorithm object reused on several datasets in a row returns, each time, a well-formed consensus "
                    "over that call's universe", 12)
